@@ -560,6 +560,18 @@ def check_roundtrip_param(R, p, m, o, values, decoded, eps, dt, unrep):
         R.v(f'roundtrip-type:{tag}', f"{p['name']}: decoded {type(got).__name__}", {'param': p})
         return nontrivial
       tol = rt_tolerance(m, float(v), eps)
+      if (sc in ('LOG', 'REVERSE_LOG') and m['lo'] > 0 and m['hi'] > m['lo']
+          and (m['hi'] - m['lo']) < 64 * eps * m['hi']):
+        # the range is narrower than the dtype can resolve (log(hi) - log(lo) is a
+        # few ulps at best): the scaled coordinate is numerically meaningless and
+        # nothing about the round trip is representable in this dtype. Only
+        # "inside the bounds when clipping is on" is demanded.
+        ctx.count('roundtrip_log_range_below_dtype_resolution')
+        if o['clip'] and not gen.member1(p, got):
+          R.v(f'roundtrip-outside-space:{tag}:{sc}', f"{p['name']}: {v!r} -> {got!r} which is "
+              'outside the bounds although clipping is on', {'param': p, 'opts': o})
+          return nontrivial
+        continue
       if not abs(got - float(v)) <= tol:
         R.v(f'roundtrip-mismatch:{tag}:{sc}', f"{p['name']}: {v!r} -> {got!r} after encode/"
             f"decode (|diff|={abs(got - float(v)):.3g} > {tol:.3g})", {'param': p, 'opts': o})
